@@ -223,7 +223,7 @@ RemoveProcInst(w, s, p) ==      \* returns <<w', s'>>
 
 AddProcessor(p, pr) ==
     /\ "proc" \in Acts /\ QRoom(2)
-    /\ \A i \in 1..Len(procs) : procs[i] # p         \* an instance is added at most once at a time
+    \* (adding an instance that is already present replaces it by itself: on_remove, new priority, new place, on_add)
     /\ LET old == OfPType(procs, PTypeOf[p])
            r1 == IF old = {} THEN <<W0, procs>> ELSE RemoveProcInst(W0, procs, procs[CHOOSE i \in old : TRUE])
            newpr == IF pr = NoPrio THEN pprio[p] ELSE pr
@@ -297,6 +297,25 @@ ProcessRemoveFault(dt, c) ==
               Commit(w2)
     /\ ret' = <<"raised", 0, "-">>
     /\ PK /\ UNCHANGED <<nextAuto, enabled, selfReg, procs, pprio, pworld, bad>>
+
+\* a processor removes a processor (of type T or a subtype; possibly itself) while the frame is running.  As
+\* coded the frame iterates the list it started with, so everybody registered at the start of the frame still
+\* runs exactly once in this frame; the removal shows from the next frame on.
+ProcessRemover(dt, p, T) ==
+    /\ "inframe" \in Acts /\ "process" \in Acts /\ QRoom(3) /\ ClearDeadGuards /\ GhostMarks = {}
+    /\ \E i \in 1..Len(procs) : procs[i] = p
+    /\ LET i == CHOOSE j \in 1..Len(procs) : procs[j] = p
+           w1 == RunProcs(ApplyDeferred(W0, dead), SubSeq(procs, 1, i), dt, "none")
+           rest == SubSeq(procs, i + 1, Len(procs))
+           present == {PTypeOf[procs[j]] : j \in 1..Len(procs)}
+           cand == IF T \in present THEN {T} ELSE PSubOf(T) \cap present IN
+       IF cand = {} THEN /\ Commit(RunProcs(w1, rest, dt, "none")) /\ procs' = procs
+       ELSE \E t \in cand :
+              LET victim == procs[CHOOSE j \in OfPType(procs, t) : TRUE]
+                  r == RemoveProcInst(w1, procs, victim) IN
+              /\ Commit(RunProcs(r[1], rest, dt, "none")) /\ procs' = r[2]
+    /\ ret' = <<"ok", 0, "-">>
+    /\ PK /\ UNCHANGED <<nextAuto, enabled, selfReg, pprio, pworld, bad>>
 
 \* the on_remove callback of component c (being removed by the deferred deletion of its entity) deletes another
 \* entity e2 immediately - everyday game code.  Whatever the iteration order, every pending deletion is applied,
@@ -380,6 +399,7 @@ Next == \/ (\E id \in Ids \cup {NoEnt}, cs \in CompSeqs : CreateEntity(id, cs))
         \/ (\E dt \in Dts, p \in Procs : ProcessProcFault(dt, p))
         \/ (\E dt \in Dts, c \in Comps : ProcessRemoveFault(dt, c))
         \/ (\E dt \in Dts, c \in Comps, e2 \in Ids : ProcessKiller(dt, c, e2))
+        \/ (\E dt \in Dts, p \in Procs, T \in PTypes : ProcessRemover(dt, p, T))
         \/ (\E i \in 1..MaxQ : SetEnabledFault(i))
         \/ Clear
         \/ (\E b \in BOOLEAN : SetEnabled(b))
